@@ -921,10 +921,10 @@ def describe_file(case):
 FAMILIES = [
     _fam("memlogger", gen_mem, impl_mem, oracle_mem, nontrivial_mem, post_mem, project_mem, describe_mem),
     _fam("memlogger_preempt", gen_mem_preempt, impl_mem_preempt, oracle_mem, nontrivial_mem, post_mem, project_mem, describe_mem,
-         corpus=CORPUS_PREEMPT, shard=1, case_timeout=300),
+         corpus=CORPUS_PREEMPT, shard=1, case_timeout=120),
     _fam("file", gen_file, impl_file, oracle_file, nontrivial_file, post_file, project_file, describe_file),
     _fam("file_preempt", gen_file_preempt, impl_file_preempt, oracle_file, nontrivial_file, post_file, project_file, describe_file,
-         corpus=CORPUS_FILE_PREEMPT, shard=1, case_timeout=300),
+         corpus=CORPUS_FILE_PREEMPT, shard=1, case_timeout=120),
     Family("file_stress", gen_stress, impl_stress, None, None, oracle_stress,
            lambda case, obs: json.dumps(case) if isinstance(obs, dict) and obs.get("lines") else None,
            shard=1, case_timeout=300, describe=lambda c: "supplementary-stress-not-a-proof"),
